@@ -129,6 +129,21 @@ def make(rng, tier):
             sc = N.Scenario("h%d-%s" % (rep_i, name), "maxconn=3", ops)
             sc.kind, sc.segs, sc.stream = name, segs, stream
             scs.append(sc)
+        # a client that connects while the server is full, sends something and RESETS before it is accepted: when a slot frees, the
+        # accept loop picks up a dead socket; it must go on accepting and the others must keep being served (seed C10-E: `peer_addr()?`
+        # in the accept loop ended Server::run — missed while every hostile client was accepted before it misbehaved)
+        for v in range(2):
+            stream = r.choice([b"\xff\x00garbage\r\n", b"*1\r\n$4\r\nPING\r\n", b""])
+            ops = ["conn g1", "send g1 %s" % G.rawhex(arr(bulk(b"SET"), bulk(b"gk"), bulk(b"gv1"))), "recv g1 5 3000",
+                   "conn g2", "send g2 %s" % G.rawhex(arr(bulk(b"GET"), bulk(b"gk"))), "recv g2 9 3000",
+                   "conn bad"] + (["send bad %s 0" % G.rawhex(stream)] if stream else []) + ["sleep 30", "abort bad", "sleep 30",
+                   "close g2", "sleep 150",
+                   "send g1 %s" % G.rawhex(arr(bulk(b"SET"), bulk(b"gk"), bulk(b"gv2"))), "recv g1 5 3000",
+                   "alive", "conn g3", "send g3 %s" % G.rawhex(arr(bulk(b"GET"), bulk(b"gk"))), "recv g3 9 3000",
+                   "storeget 686b", "storeget 686b32", "storeget 676b", "storeget fffe"]
+            sc = N.Scenario("h%d-reset-in-backlog%d" % (rep_i, v), "maxconn=2", ops)
+            sc.kind, sc.segs, sc.stream = "reset-in-backlog", [stream], stream
+            scs.append(sc)
     return scs
 
 
@@ -207,7 +222,7 @@ def main(tier, seed):
         "checker_cmd": "make -C coq Props/C10.vo (coqc 8.16.1) ; bin/check C10",
         "trusted_base": TRUSTED,
         "evaluations": len(scs), "distinct_nontrivial": len(kinds),
-        "rule": "one scenario = one hostile byte stream (35 families: garbage, unknown/lower-case commands, unknown commands with long "
+        "rule": "one scenario = one hostile byte stream (36 families: a client that resets while it waits in the backlog of a full server, garbage, unknown/lower-case commands, unknown commands with long "
                 "ASCII / multi-byte / invalid UTF-8 names, wrong arity, non-UTF-8 "
                 "keys, truncated frames, nesting at/beyond the limit and 100000 deep, absurd lengths, malformed items after well-formed "
                 "commands, mutations) sent on one connection while two other connections issue SET/GET with known answers before, "
